@@ -1,0 +1,61 @@
+//go:build verif
+
+package file
+
+// Contracts for the deductive verifier in /verif (govc). Comments only; build tag "verif".
+//
+// C05: index arithmetic of the ODS file format. The file is abstracted at share granularity (A-IO):
+// shareAt(r, pos) is the share made of the 512 bytes at byte position pos of the file behind the
+// io.ReaderAt r, fsize(r) its size. ReadAt on a regular file returns exactly the bytes that exist.
+// The format never stores trailing tail-padding shares: positions past the end of the file read as
+// the constant tail-padding share.
+
+//@ pure func fsize(r io.ReaderAt) int
+//@ pure func shareAt(r io.ReaderAt, pos int) libshare.Share
+//@ pure func shareOfBuf(b []byte) libshare.Share
+//@ pure func tailPad() libshare.Share
+
+//@ extern (io.ReaderAt).ReadAt
+//@   params r p off
+//@   modifies p
+//@   ensures fsize(r) >= 0
+//@   ensures n == (fsize(r) - off >= len(p) ? len(p) : (fsize(r) - off > 0 ? fsize(r) - off : 0))
+//@   ensures forall k int :: 0 <= k && (k + 1) * 512 <= n ==> shareOfBuf(p[k*512:(k+1)*512]) == shareAt(r, off + k*512)
+//@ extern github.com/celestiaorg/go-square/v4/share.NewShare
+//@   ensures err == nil ==> result0 == shareOfBuf(data)
+//@ extern github.com/celestiaorg/go-square/v4/share.TailPaddingShare
+//@   ensures result == tailPad()
+
+//@ func (*headerV0).SquareSize
+//@   property C05
+//@   pure
+//@   ensures result == h.squareSize
+//@ func (*headerV0).ShareSize
+//@   property C05
+//@   pure
+//@   ensures result == h.shareSize
+
+// Row half `rowIdx` of the ODS: share i is the cell (rowIdx, i) of the row-major ODS region that
+// starts at `offset`, or tail padding when the file ends before it.
+//@ func readRowHalf
+//@   property C05
+//@   requires hdr != nil && hdr.shareSize == 512 && hdr.squareSize >= 2 && rowIdx >= 0 && offset >= 0
+//@   ensures err == nil ==> len(result0) == hdr.squareSize / 2
+//@   ensures err == nil ==> forall i int :: 0 <= i && i < hdr.squareSize / 2 ==> result0[i] == ((offset + (rowIdx * (hdr.squareSize/2) + i + 1) * 512 <= fsize(r)) ? shareAt(r, offset + (rowIdx * (hdr.squareSize/2) + i) * 512) : tailPad())
+//@   loop 1: invariant -1 <= rangeindex && rangeindex < len(shares) && len(shares) == hdr.squareSize / 2
+//@   loop 1: invariant forall j int :: 0 <= j && j <= rangeindex ==> shares[j] == ((offset + (j + 1) * 512 <= fsize(r)) ? shareAt(r, offset + j * 512) : tailPad())
+
+// Column half `colIdx` of the ODS: share i is the cell (i, colIdx), or tail padding from the first
+// row whose cell lies past the end of the file (the ODS region holds whole shares).
+//@ func readColHalf
+//@   property C05
+//@   requires hdr != nil && hdr.shareSize == 512 && hdr.squareSize >= 2 && colIdx >= 0 && colIdx < hdr.squareSize / 2 && offset >= 0
+//@   requires fsize(r) >= offset && mod(fsize(r) - offset, 512) == 0
+//@   ensures err == nil ==> len(result0) == hdr.squareSize / 2
+//@   ensures err == nil ==> forall i int :: 0 <= i && i < hdr.squareSize / 2 ==> result0[i] == ((offset + (i * (hdr.squareSize/2) + colIdx + 1) * 512 <= fsize(r)) ? shareAt(r, offset + (i * (hdr.squareSize/2) + colIdx) * 512) : tailPad())
+//@   loop 1: invariant -1 <= rangeindex && rangeindex < len(shares) && len(shares) == hdr.squareSize / 2
+//@   loop 1: invariant forall j int :: 0 <= j && j <= rangeindex ==> shares[j] == ((offset + (j * (hdr.squareSize/2) + colIdx + 1) * 512 <= fsize(r)) ? shareAt(r, offset + (j * (hdr.squareSize/2) + colIdx) * 512) : tailPad())
+//@   loop 2: invariant rangeindex <= i && i <= len(shares) && len(shares) == hdr.squareSize / 2 && 0 <= rangeindex
+//@   loop 2: invariant offset#1 + (rangeindex * (hdr.squareSize/2) + colIdx + 1) * 512 > fsize(r)
+//@   loop 2: invariant forall j int :: 0 <= j && j < rangeindex ==> shares[j] == ((offset#1 + (j * (hdr.squareSize/2) + colIdx + 1) * 512 <= fsize(r)) ? shareAt(r, offset#1 + (j * (hdr.squareSize/2) + colIdx) * 512) : tailPad())
+//@   loop 2: invariant forall j int :: rangeindex <= j && j < i ==> shares[j] == tailPad()
